@@ -431,7 +431,8 @@ class Verdict:
                 log("  clause=%s count=%d first=%s" % (clause, len(vs), json.dumps(vs[0], default=str)[:600]))
             rc = 1
         cov = dict(coverage)
-        cov.setdefault("samples", [])
+        if not cov.get("samples"):
+            raise ToolError("internal: the check recorded no sample scenario for its evidence")
         cov["known_findings_observed"] = {k: n for k, (e, n) in seen_known.items()}
         cov["notes"] = self.notes[:50]
         ev = {
